@@ -118,6 +118,37 @@ fn bls_point_program(rng: &mut Rng) -> (T, T) {
     (prog, T::nil())
 }
 
+/// an apply that conses its result pair inside the call and leaves ≥ 1 KiB of garbage: under ENABLE_GC the
+/// restore must keep exactly that pair, whatever else the allocator holds
+fn gc_pair_program(rng: &mut Rng) -> (T, T) {
+    let blen_ = 600 + rng.below(300) as usize;
+    let blob = T::Atom(rng.bytes(blen_));
+    // the garbage must survive until the *apply* returns: produce it under operators that are not GC
+    // candidates themselves ((f (c X (concat B B))) = X)
+    let garbage = call(5, vec![call(4, vec![int(2), call(14, vec![quote(blob.clone()), quote(blob)])])]);
+    let inner = call(4, vec![garbage, call(4, vec![int(2), call(4, vec![int(5), quote(atom(&[]))])])]);
+    let env = T::list(vec![int(5), int(6), int(7), int(8)]);
+    let prog = call(4, vec![call(2, vec![quote(inner), int(1)]), call(4, vec![int(2), int(5)])]);
+    (prog, env)
+}
+
+/// a softfork guard with a known extension whose declared cost is exactly right (default flags), around
+/// tiny bodies including operators invoked with no operands
+fn exact_guard(rng: &mut Rng) -> (T, T) {
+    let zero_arg = *rng.pick(&[16u8, 17, 18, 11, 14, 24, 25, 26, 33, 34]);
+    let body = match rng.below(4) {
+        0 => call(zero_arg, vec![]),
+        1 => call(zero_arg, vec![quote(int(rng.range(-3, 300) as i128))]),
+        2 => quote(int(42)),
+        _ => call(13, vec![call(14, vec![quote(T::Atom(rng.bytes(600))), quote(T::Atom(rng.bytes(600)))])]),
+    };
+    let ext = *rng.pick(&[0i128, 1]);
+    match guard_for(0, ext, &body) {
+        Some((g, _)) => (g, T::nil()),
+        None => (quote(int(1)), T::nil()),
+    }
+}
+
 /// a softfork guard (extension 0, 1 or 2) around a small body whose declared cost is *not* what the
 /// body costs: an aware node must reject it (or, for an unknown extension, charge the declared cost),
 /// whatever hard-fork flags are set
@@ -231,6 +262,10 @@ pub fn oracle(name: &str, rng: &mut Rng, n: usize, tier: &str) -> OracleReport {
             let l = &lines[rng.below(lines.len() as u64) as usize];
             let w: Vec<&str> = l.split(' ').collect();
             (trees::from_hex(w[6]).unwrap(), T::nil())
+        } else if name == "repr" && i % 4 == 3 {
+            gc_pair_program(rng)
+        } else if name == "hide" && i % 5 == 3 {
+            exact_guard(rng)
         } else if name == "repr" && i % 4 == 2 {
             progs::random_path_program(rng)
         } else if name == "hide" && i % 5 == 1 {
@@ -244,6 +279,8 @@ pub fn oracle(name: &str, rng: &mut Rng, n: usize, tier: &str) -> OracleReport {
             prog = progs::mutate(rng, &prog);
         }
         let flags = match name {
+            "repr" if i % 4 == 3 => random_flags(rng) | ENABLE_GC,
+            "hide" if i % 5 == 3 => 0, // exact_guard() declares the cost for default flags
             "hide" => (random_flags(rng) & !(NO_UNKNOWN_OPS | NEW_COST_MODEL)) | if i % 5 == 2 && i % 2 == 0 { 0x100 } else { 0 },
             "runtime" => random_flags(rng) & !(ENABLE_GC | DISABLE_OP),
             _ => random_flags(rng),
@@ -536,6 +573,13 @@ fn uses_chia_only_ops(t: &T) -> bool {
 /// run in an allocator that already holds unrelated nodes and earlier (successful and failed) runs
 fn run_with_history(rng: &mut Rng, flags: u32, prog: &T, env: &T) -> Result<(u64, String), (String, String)> {
     let mut a = Allocator::new();
+    if rng.chance(1, 3) {
+        // an atom-heavy history: many more heap atoms than pairs
+        for _ in 0..(2000 + rng.below(3000)) {
+            let b = rng.bytes(32);
+            let _ = a.new_atom(&b);
+        }
+    }
     for _ in 0..rng.below(20) {
         let t = trees::random_tree(rng, 10, 40);
         let _ = trees::build(&mut a, &t);
@@ -559,9 +603,13 @@ fn run_with_history(rng: &mut Rng, flags: u32, prog: &T, env: &T) -> Result<(u64
     let mut it = "".chars();
     let p = crate::run::build_tagged(&mut a, prog, &mut it);
     let e = crate::run::build_tagged(&mut a, env, &mut it);
-    match run_program(&mut a, &ChiaDialect::new(f), p, e, 0) {
+    let r = std::panic::catch_unwind(std::panic::AssertUnwindSafe(|| match run_program(&mut a, &ChiaDialect::new(f), p, e, 0) {
         Ok(red) => Ok((red.0, trees::to_hex(&trees::from_node(&a, red.1)))),
         Err(e) => Err((err_kind(&e), format!("{}", e))),
+    }));
+    match r {
+        Ok(x) => x,
+        Err(_) => Err(("PANIC".to_string(), "panic".to_string())),
     }
 }
 
@@ -811,4 +859,47 @@ pub fn generate_run_sha256tree(rng: &mut Rng, n: usize) -> Vec<String> {
         }
     }
     out
+}
+
+/// C11 at operator level: every request of the `op_fastpath` stream (byte-boundary values, padded
+/// operands) as a program, under F and F | NEW_COST_MODEL: when both succeed the values are equal
+pub fn oracle_costmodel_ops(rng: &mut Rng, n: usize, tier: &str) -> OracleReport {
+    let mut rep = OracleReport::default();
+    let code = |name: &str| -> Option<u8> {
+        Some(match name {
+            "op_add" => 16, "op_subtract" => 17, "op_multiply" => 18, "op_div" => 19, "op_divmod" => 20, "op_gr" => 21, "op_ash" => 22,
+            "op_lsh" => 23, "op_logand" => 24, "op_logior" => 25, "op_logxor" => 26, "op_lognot" => 27, "op_mod" => 61, "op_modpow" => 60,
+            _ => return None,
+        })
+    };
+    let mut lines = progs::generate_op_fastpath(rng, n, tier);
+    lines.extend(progs::generate_op_limits(rng, 0, tier).into_iter().step_by(7));
+    for (i, l) in lines.iter().enumerate() {
+        let w: Vec<&str> = l.split(' ').collect();
+        let Some(opcode) = code(w[2]) else { continue };
+        let flags = u32::from_str_radix(w[3], 16).unwrap() & !NEW_COST_MODEL;
+        let args = trees::from_hex(w[5]).unwrap();
+        let mut items = vec![];
+        let mut cur = &args;
+        while let T::Pair(a, b) = cur {
+            items.push(quote((**a).clone()));
+            cur = b;
+        }
+        let prog = call(opcode, items);
+        let env = T::nil();
+        let old = run_full("chia", flags, 0, &prog, &env, "");
+        let new = run_full("chia", flags | NEW_COST_MODEL, 0, &prog, &env, "");
+        rep.evaluations += 1;
+        rep.nontrivial += 1;
+        rep.hit(match &old.res { Ok(_) => "ok", Err((k, _)) => k.as_str() });
+        if i < 2 {
+            rep.sample(desc(&prog, &env, flags));
+        }
+        if let (Ok((_, v1)), Ok((_, v2))) = (&old.res, &new.res) {
+            if v1 != v2 {
+                rep.fail("costmodel_ops", format!("{} old={} new={}", desc(&prog, &env, flags), v1, v2));
+            }
+        }
+    }
+    rep
 }
